@@ -909,6 +909,18 @@ class Interp:
             return True
         return name.startswith("__") and not name.endswith("__") and fv.cls is not None
 
+    def _default_value(self, fv: FuncV, node: ast.expr) -> z3.ExprRef:
+        """A default is evaluated once, when the `def` runs; re-evaluating it at every call gives the same value only
+        for expressions without allocation or side effect (selfcheck `default_twice`: a list display was re-created)."""
+        ok = (ast.Constant, ast.Name, ast.Attribute, ast.Lambda, ast.UnaryOp, ast.Tuple, ast.Load, ast.USub, ast.Not,
+              ast.arguments, ast.arg, ast.BinOp, ast.Add, ast.Sub, ast.Mult, ast.Compare, ast.Is, ast.IsNot, ast.Eq, ast.NotEq)
+        # (a lambda default is a function object: created once in CPython, per call here; its identity is never used)
+        for sub in ([] if isinstance(node, ast.Lambda) else ast.walk(node)):
+            if not isinstance(sub, ok):
+                raise Unsupported(f"default `{ast.unparse(node)}` of {fv.qualname} is evaluated once at definition "
+                                  "(mutable or effectful default)")
+        return self.eval(node, fv.env)
+
     def bind_params(self, fv: FuncV, cargs: CallArgs, env: Env) -> None:
         a: ast.arguments = fv.node.args
         pos = list(cargs.pos)
@@ -919,6 +931,20 @@ class Interp:
         n_pos = len(params)
         defaults = [None] * (n_pos - len(a.defaults)) + list(a.defaults)
         star, starstar = cargs.star, cargs.starstar
+        taken: list = []
+
+        def from_starstar(name: str) -> z3.ExprRef | None:
+            """A named parameter that the call does not bind explicitly is bound from **mapping when the mapping
+            has that key (selfcheck `call_forms`: it used to fall through to the default)."""
+            if starstar is None:
+                return None
+            key = self.mk_str(name)
+            parts = self.lib.dict_parts(self, starstar)
+            if self.st.decide(z3.Select(parts["has"], key), f"kwargs-supply:{name}"):
+                taken.append(key)
+                return z3.Select(parts["val"], key)
+            return None
+
         for i, p in enumerate(params):
             if i < len(pos):
                 env.vars[p.arg] = pos[i]
@@ -934,10 +960,11 @@ class Interp:
                 env.vars[p.arg] = kw.pop(p.arg)
             elif star is not None:
                 raise Unsupported(f"symbolic *args feeding named parameter {p.arg} of {fv.qualname}")
+            elif p not in a.posonlyargs and not self._reserved_param(fv, p.arg, i) \
+                    and (got := from_starstar(p.arg)) is not None:
+                env.vars[p.arg] = got
             elif defaults[i] is not None:
-                env.vars[p.arg] = self.eval(defaults[i], fv.env)
-            elif starstar is not None:
-                raise Unsupported(f"symbolic **kwargs feeding parameter {p.arg} of {fv.qualname}")
+                env.vars[p.arg] = self._default_value(fv, defaults[i])
             else:
                 raise PyRaise(self.new_exc("TypeError"), f"missing argument {p.arg} of {fv.qualname}")
         extra = pos[n_pos:]
@@ -956,12 +983,16 @@ class Interp:
         for p, d in zip(a.kwonlyargs, a.kw_defaults):
             if p.arg in kw:
                 env.vars[p.arg] = kw.pop(p.arg)
+            elif (got := from_starstar(p.arg)) is not None:
+                env.vars[p.arg] = got
             elif d is not None:
-                env.vars[p.arg] = self.eval(d, fv.env)
-            elif starstar is not None:
-                raise Unsupported(f"symbolic **kwargs feeding keyword parameter {p.arg}")
+                env.vars[p.arg] = self._default_value(fv, d)
             else:
                 raise PyRaise(self.new_exc("TypeError"), f"missing keyword argument {p.arg} of {fv.qualname}")
+        if starstar is not None and taken:
+            starstar = self.lib.dict_of(self, starstar)
+            for key in taken:
+                self.lib.dict_remove_at(self, starstar, key)
         if a.kwarg is not None:
             if starstar is not None and not kw:
                 env.vars[a.kwarg.arg] = starstar
